@@ -54,6 +54,10 @@ class Session:
         options = options or {"tabSize": 4, "insertSpaces": True}
         if reopen:
             self.srv.did_close(self.path)
+            if reopen == "disk":
+                # the file is rewritten on disk while it is closed, then opened with exactly that text
+                with open(self.path, "w", newline="") as f:
+                    f.write(text)
             self.srv.did_open(self.path, text)
         else:
             self.version += 1
@@ -106,6 +110,13 @@ def shard(idx, n, seed, tier, params):
                 kinds.append(("on-type", text))
             if i % 6 == 0:
                 kinds.append(("reopened", text))
+            if i % 6 == 3:
+                kinds.append(("disk-changed-then-opened", text))
+            if i % 7 == 0:
+                # formatted lines with CRLF terminators: everything, or a formatted head followed by lines that still need work
+                head = expected.replace("\r\n", "\n").replace("\n", "\r\n")
+                kinds.append(("already-formatted", head) if rng.random() < 0.5 else
+                             ("already-formatted", head + rng.choice(["lda   #1\r\n", "  nop\r\nfoo_zz:   rts\r\n", "nop  //  tail\r\n", ".byte 1,2\n"])))
             for kind, buf in kinds:
                 if kind == "already-formatted":
                     # (the formatter is not idempotent everywhere - C13 - so the reference is the formatter's text for THIS buffer)
@@ -120,7 +131,7 @@ def shard(idx, n, seed, tier, params):
                 options = {"tabSize": rng.choice([1, 2, 3, 4, 4, 8]), "insertSpaces": rng.random() < 0.7}
                 if rng.random() < 0.3:
                     options.update({"trimTrailingWhitespace": rng.random() < 0.5, "insertFinalNewline": rng.random() < 0.5, "trimFinalNewlines": rng.random() < 0.5})
-                r = ses.format(buf, on_type=(kind == "on-type"), options=options, reopen=(kind == "reopened"))
+                r = ses.format(buf, on_type=(kind == "on-type"), options=options, reopen=("disk" if kind == "disk-changed-then-opened" else kind == "reopened"))
                 w = {"buffer": buf, "kind": kind, "options": options, "response": r, "expected": expected}
                 cls = "%s|%s|%s" % ("on-type" if kind == "on-type" else "formatting", "non-ascii" if any(ord(c) > 127 for c in buf) else "ascii", "crlf" if "\r\n" in buf else "lf")
                 if r.get("busy"):
@@ -147,8 +158,9 @@ def shard(idx, n, seed, tier, params):
                 except ValueError as e:
                     acc.violation("malformed-edits|%s" % cls, str(e), w)
                     continue
-                # CRLF buffers: judged modulo line terminators (how a client treats a lone \r differs between editors)
-                if got.replace("\r\n", "\n").replace("\r", "") != expected.replace("\r\n", "\n"):
+                # (exactly: `mos format` writes LF line terminators on this platform, so no CR of a CRLF buffer may survive
+                # outside a block comment, where the formatter keeps the text verbatim)
+                if got != expected:
                     k = next((j for j in range(min(len(got), len(expected))) if got[j] != expected[j]), min(len(got), len(expected)))
                     acc.violation("edits-do-not-reproduce-formatter|%s" % cls, "applied edits differ from the formatter's text at offset %d: %r vs %r" % (k, got[max(0, k - 20):k + 30], expected[max(0, k - 20):k + 30]),
                                   dict(w, applied=got))
@@ -169,9 +181,11 @@ def main(tier, seed):
     return finish(
         "C17", tier, seed, acc, t0,
         rule="error-free single-file buffers from ProgGen in hostile or plain layout, 35% with non-ASCII text in comments and strings "
-             "(BMP and astral characters), 20% CRLF, every 4th also in already formatted form, every 5th via onTypeFormatting; sent to a "
-             "real `mos lsp` (didChange + textDocument/formatting). The returned edits must be in range (UTF-16 columns), ordered and "
+             "(BMP and astral characters), 20% CRLF, every 4th also in already formatted form (every 7th with CRLF terminators, half of those "
+             "followed by lines that still need formatting), every 5th via onTypeFormatting; sent to a real `mos lsp` (didChange, or "
+             "didClose + didOpen while the file on disk says something else, or the file rewritten on disk while closed and then opened "
+             "with that text; then textDocument/formatting). The returned edits must be in range (UTF-16 columns), ordered and "
              "non-overlapping, and applied to the buffer in the standard way they must yield exactly the text the formatter produces "
              "for that buffer with default options (library entry point; its equality with `mos format` is C12's CLI slice). "
              "Non-trivial = distinct (buffer, request kind) whose edits reproduced the formatter.",
-        assumptions=["CRLF buffers are compared modulo line terminators", "edits are applied relative to the original text with UTF-16 columns, as the LSP specification prescribes"])
+        assumptions=["edits are applied relative to the original text with UTF-16 columns, as the LSP specification prescribes"])
